@@ -527,6 +527,8 @@ def eval_exact(t, env=None, prims=None):
             if r is not None:
                 return r
         raise NotEvaluable("call of %s" % t[1])
+    if h in ("tuple", "list"):
+        return tuple(eval_exact(x, env, prims) for x in t[1:])
     if h == "idx":
         i = eval_exact(t[2], env, prims)
         b = t[1]
